@@ -20,6 +20,8 @@ EXPLANATION = (
     "can influence the returned commitments / states (commit) and proofs (IPA, Hyrax open), and the commitment "
     "randomness can influence KZG10 proofs. R6b: in the committers whose hiding is optional every draw is control "
     "dependent on a test of the polynomial's hiding bound, so nothing is drawn (and nothing blinded) without one. R5: "
+    "R6d: in Hyrax, whose hiding is not optional, every draw lies on every non-refusing path of the body (or loop "
+    "iteration) it belongs to - no row or polynomial is committed / opened without its blinding scalar. "
     "KZG10::commit refuses with MissingRng when hiding is requested without a generator. R12: the hiding polynomial "
     "has degree hiding_bound + k with k >= 1 in both definitions. Independence and sufficiency of the randomness and the "
     "group identity 'commitment = plain + blinding' are not decided.")
@@ -141,6 +143,59 @@ def transitive_cd(b):
     return get
 
 
+def bypass_of_draw(b, blk):
+    """a path that completes the unit of work the draw belongs to (one loop iteration if the draw is inside a loop,
+    else the whole body up to its normal return) without passing the draw; refusals (aborts, `?`, Err) do not count.
+    Returns the span of the block from which the bypass completes, or None."""
+    succ = b.succ()
+    div = b.diverging()
+    refusing = set(div)
+    for i, x in enumerate(b.blocks):
+        t = x["term"]
+        if t["k"] == "call" and (t.get("callee") or "").endswith("from_residual"):
+            refusing.add(i)
+        for st in x["stmts"]:
+            rv = st["rv"]
+            if rv.get("k") == "agg" and rv.get("adt") == "std::result::Result" and rv.get("variant") == "Err":
+                refusing.add(i)
+    cyc = RNG.cyclic_blocks(b)
+    if blk in cyc:
+        scc = R5._scc_of(b, blk)
+        heads = [h for h in scc if all(b.dominates(h, x) for x in scc)]
+        if not heads:
+            return None
+        h = heads[0]
+        if h == blk:
+            return None
+        seen = set()
+        st = [y for y in succ[h] if y in scc]
+        while st:
+            x = st.pop()
+            if x in seen or x == blk or x in refusing or b.blocks[x]["cleanup"]:
+                continue
+            seen.add(x)
+            for y in succ[x]:
+                if y == h:
+                    return b.blocks[x]["term"].get("span") or b.span
+                if y in scc:
+                    st.append(y)
+        return None
+    seen = set()
+    st = [0]
+    while st:
+        x = st.pop()
+        if x in seen or x == blk or x in refusing or b.blocks[x]["cleanup"]:
+            continue
+        seen.add(x)
+        if b.blocks[x]["term"]["k"] == "return":
+            return b.blocks[x]["term"].get("span") or b.span
+        st.extend(succ[x])
+    return None
+
+
+ALWAYS_HIDING = {"hyrax.commit", "hyrax.open"}
+
+
 def run(rep, ctx, tier):
     f = ctx.facts
     n_draws = 0
@@ -187,6 +242,14 @@ def run(rep, ctx, tier):
             else:
                 rep.add("R10", dk, False, "randomness drawn at %s from a generator that is not derived from the rng "
                         "parameter of %s" % (t["span"], short(body.id)), t["span"])
+            if key in ALWAYS_HIDING:
+                # R6d: where hiding is not optional no path completes a row / a polynomial / the call without the draw
+                by = bypass_of_draw(b, blk)
+                rep.add("R6d", "%s:draw-on-every-path@%s#%d" % (key, short(bid), k), by is None,
+                        ("draw at %s lies on every non-refusing path of its %s" % (t["span"], "loop iteration" if blk in RNG.cyclic_blocks(b) else "body"))
+                        if by is None else
+                        ("the %s containing the draw at %s can complete without it (via %s): on those inputs the output "
+                         "is not blinded" % ("loop iteration" if blk in RNG.cyclic_blocks(b) else "body", t["span"], by)), t["span"])
             if optional:
                 # R6b: control dependent on a hiding-bound test in some body on the way to the draw
                 lt = R5.leads_to(g, (bid, blk))
